@@ -159,7 +159,16 @@ var (
 	isActive bool
 	isAbort  bool
 	curCwd   string
+	curEpoch int64
 )
+
+// EpochNano returns the wall-clock instant (Unix nanoseconds) of simulated time zero.
+//
+//go:norace
+func EpochNano() int64 { return curEpoch }
+
+//go:norace
+func setEpoch(e int64) { curEpoch = e }
 
 //go:norace
 func setCur(id int, gate int) { curID, curGate = int64(id), gate }
@@ -307,6 +316,7 @@ func Run(cfg Config, root func()) *Result {
 	k := newKernel(cfg)
 	kr, kw := mkpipe()
 	setRun(true, kw, k.cfg.Cwd)
+	setEpoch(k.cfg.Epoch.UnixNano())
 	rt := k.newTask("root")
 	rt.tr.gateR, rt.tr.gateW = mkpipe()
 	rt.tr.done = make(chan struct{})
